@@ -460,6 +460,81 @@ def check_optional_chars(idx: Index, rep: Report) -> None:
         raise AnalysisError("expected at least 3 Input.at lookups in the MLIR lexer")
 
 
+def check_tuple_index(idx: Index, rep: Report) -> None:
+    """`%name#<index>`: the index is converted from token text and later subscripts a tuple of results.  The upper
+    bound is tested where it is used; the lower bound must come from the language the text is validated against
+    (int() also accepts `-2`, `1_0`, ` 7 `: a negative index silently selects another result or raises IndexError)."""
+    r = rep.rule("C07.R5", "an SSA tuple index converted from token text is validated against a language of plain decimal digits (or tested >= 0) before int(), and tested against the tuple size where it subscripts", floor=2)
+    f = idx.func("xdsl/parser/core.py", "Parser.parse_optional_unresolved_operand")
+    fn = f.node
+    mi = f.module
+    ints = [c for c in calls_in(fn) if isinstance(c.func, ast.Name) and c.func.id == "int" and c.args]
+    if not ints:
+        raise AnalysisError(f"{f.fq}: conversion of the tuple index not found")
+    digits_only = rx.from_regex(r"[0-9]+")
+    from ..rx_extract import compile_call, const_str
+
+    for c in ints:
+        arg = unparse(c.args[0])
+        ok = None
+        for t, pol in guard_facts(fn, c):
+            # `re.fullmatch(P, text) is None` was false  /  `P.fullmatch(text)` was true
+            call = None
+            if isinstance(t, ast.Compare) and len(t.ops) == 1 and isinstance(t.ops[0], (ast.Is, ast.IsNot)) and unparse(t.comparators[0]) == "None" and isinstance(t.left, ast.Call):
+                if (isinstance(t.ops[0], ast.Is) and not pol) or (isinstance(t.ops[0], ast.IsNot) and pol):
+                    call = t.left
+            elif isinstance(t, ast.Call) and pol:
+                call = t
+            if call is None or call_attr(call) != "fullmatch":
+                # explicit sign test on the converted value
+                continue
+            if unparse(call.func) == "re.fullmatch" and len(call.args) >= 2 and unparse(call.args[1]) == arg:
+                pat_e = call.args[0]
+            elif isinstance(call.func, ast.Attribute) and call.args and unparse(call.args[0]) == arg:
+                pat_e = call.func.value
+            else:
+                continue
+            # resolve the pattern: class attribute holding re.compile(...) or a literal
+            pat = None
+            if isinstance(pat_e, ast.Attribute) and unparse(pat_e.value) in ("self", "cls") and f.cls is not None:
+                v = f.cls.class_assigns().get(pat_e.attr)
+                if v is not None:
+                    pat = compile_call(idx, mi, v, f.cls)
+            elif isinstance(pat_e, ast.Constant) and isinstance(pat_e.value, str):
+                pat = (pat_e.value, 0)
+            if pat is None:
+                raise AnalysisError(f"{f.fq}: pattern `{unparse(pat_e)}` of the tuple-index validation cannot be resolved")
+            w = rx.included(rx.from_regex(pat[0], pat[1]), digits_only)
+            ok = (w, pat[0])
+        inst = f"{f.fq}:int({arg})"
+        loc = f"{mi.relpath}:{c.lineno}"
+        if ok is None:
+            # a later explicit `index < 0` rejection?
+            pm = parent_map(fn)
+            neg = [n for n in walk_local(fn) if isinstance(n, ast.Compare) and len(n.ops) == 1 and ((isinstance(n.ops[0], ast.Lt) and unparse(n.comparators[0]) == "0") or (isinstance(n.ops[0], ast.GtE) and unparse(n.comparators[0]) == "0"))]
+            if neg:
+                r.ok(inst, f"{loc} sign of the converted index is tested")
+            else:
+                r.fail(inst, Finding("C07.R5", f.fq, "index-language", f"`{unparse(c)}` converts the text after `#` without validating it against plain decimal digits: int() accepts `-2`, `+1`, `1_0` (all lexed as one HASH_IDENT), so `%0#-2` reaches the result tuple with a negative index and raises IndexError (or silently selects another result)", loc))
+        elif ok[0] is None:
+            r.ok(inst, f"{loc} text validated by fullmatch({ok[1]!r}) ⊆ [0-9]+ before int()")
+        else:
+            r.fail(inst, Finding("C07.R5", f.fq, "index-language", f"the tuple index is validated with {ok[1]!r}, which also admits `{rx.show(ok[0])}`: not a plain non-negative decimal", loc))
+    # consumers: subscripts by `<operand>.index` are dominated by an upper-bound test
+    g = idx.func("xdsl/parser/core.py", "Parser.resolve_operand")
+    subs = [n for n in walk_local(g.node) if isinstance(n, ast.Subscript) and unparse(n.slice).endswith(".index") and isinstance(n.ctx, ast.Load) and "ssa_values" in unparse(n.value)]
+    if not subs:
+        raise AnalysisError(f"{g.fq}: subscript of the result tuple by the operand index not found")
+    for n in subs:
+        key = unparse(n.slice)
+        facts = [(unparse(t), pol) for t, pol in guard_facts(g.node, n)]
+        bounded = any((not pol) and re.fullmatch(rf"{re.escape(key)} >= \w+", t) for t, pol in facts) or any(pol and re.fullmatch(rf"{re.escape(key)} < \w+", t) for t, pol in facts)
+        if bounded:
+            r.ok(f"{g.fq}:[{key}]", f"{g.module.relpath}:{n.lineno} subscript guarded by the tuple size")
+        else:
+            r.fail(f"{g.fq}:[{key}]", Finding("C07.R5", g.fq, "index-upper-bound", f"`{unparse(n)}` is not guarded by a comparison of `{key}` with the tuple size: `%0#7` raises IndexError", f"{g.module.relpath}:{n.lineno}"))
+
+
 def check(idx: Index, rep: Report, tier: str) -> str:
     rep.run(check_redos, idx, rep, tier)
     rep.run(check_unicode_predicates, idx, rep)
@@ -468,6 +543,7 @@ def check(idx: Index, rep: Report, tier: str) -> str:
     rep.run(check_consume_token, idx, rep)
     rep.run(check_external_raisers, idx, rep)
     rep.run(check_optional_chars, idx, rep)
+    rep.run(check_tuple_index, idx, rep)
     return (
         "Regular-language ambiguity analysis of every regex of the lexer/parser modules (ReDoS), Unicode-width check of "
         "the lexer's digit dispatch, and a guard / sibling-agreement classification of every raise, assert and partial "
